@@ -164,6 +164,53 @@ SPECIAL = {
 }
 
 
+def thresholds(case):
+  """uniform_stochastic_quantize with explicit v_min / v_max (its documented threshold arguments): the grid lies between the
+  thresholds, coordinates outside saturate at them; every output is one of the two grid neighbours of the saturated input,
+  inside [v_min, v_max], with the saturated input as its mean - for all K^d joint answers."""
+  import jax
+  import jax.numpy as jnp
+  from fedjax.aggregators import compression as comp
+  levels, k = case['levels'], case['K']
+  vecs = [case['vec']] if 'vec' in case else [v for v in base_vectors() if len(v) <= 2]
+  pairs = [case['pair']] if 'pair' in case else [(a, b) for a in (None, -0.5, 0.0, 0.25, 0.5) for b in (None, 0.5, 0.75, 1.0, 1.5)
+                                                 if not (a is None and b is None) and (a is None or b is None or a < b)]
+  evals, outs = 0, set()
+  for bv in vecs:
+    v = np.asarray(bv, np.float32)
+    d = v.size
+    keys = jnp.asarray(answer_keys(k ** d))
+    for a, b in pairs:
+      lo = float(v.min()) if a is None else a
+      hi = float(v.max()) if b is None else b
+      if not lo < hi:
+        continue
+      nc = dict(case, vec=bv, pair=[a, b])
+      with seams.patched(jax.random, uniform=grid_uniform_factory(k)):
+        out = np.asarray(jax.vmap(lambda key: comp.uniform_stochastic_quantize(jnp.asarray(v), levels, key, a, b))(keys), np.float64)
+      out = out.reshape(k ** d, d)
+      c = np.clip(v.astype(np.float64), lo, hi)
+      step = (hi - lo) / (levels - 1)
+      pos = (c - lo) / step
+      lo_l, hi_l = lo + np.floor(pos + 1e-6) * step, lo + np.ceil(pos - 1e-6) * step
+      tol = 4e-6 * max(abs(lo), abs(hi), 1.0)
+      require(bool(np.all(np.isfinite(out))), 'uniform with thresholds: non-finite output', case=nc)
+      ok = (np.abs(out - lo_l) <= tol) | (np.abs(out - hi_l) <= tol)
+      require(bool(ok.all()), 'uniform with thresholds (%r, %r): an output coordinate is not a grid neighbour of the input saturated at '
+              'the thresholds' % (a, b), [lo_l.tolist(), hi_l.tolist()], out[~ok.all(axis=1)][:1].tolist(), case=nc)
+      require(bool(np.all(out >= lo - tol) and np.all(out <= hi + tol)), 'uniform with thresholds: output outside [v_min, v_max]',
+              [lo, hi], [float(out.min()), float(out.max())], case=nc)
+      frac = pos - np.floor(pos)
+      on_k = np.abs(frac * k - np.round(frac * k)) < 1e-4
+      allowed = np.where(on_k, 0.0, step / (2 * k)) + tol
+      mean = out.mean(axis=0)
+      require(bool(np.all(np.abs(mean - c) <= allowed)), 'uniform with thresholds: the mean over all %d joint answers is not the '
+              'saturated input' % len(out), c.tolist(), mean.tolist(), case=nc)
+      evals += len(out)
+      outs.add(core.digest(mean.round(6).tolist()))
+  return {'evals': evals, 'nontrivial': True, 'outcomes': sorted(outs), 'keys': [[levels, i] for i in range(len(vecs))]}
+
+
 def quantize_special(case):
   """Special vectors: per-coordinate quadrature (K=64) and real keys; finiteness, support, bounds."""
   import jax
@@ -455,7 +502,7 @@ def extreme_draws(case):
   return {'evals': evals, 'nontrivial': levels > 5, 'outcome': [levels, lo, hi]}
 
 
-SUBS = {'extreme_draws': extreme_draws, 'quantize_grid': quantize_grid, 'quantize_special': quantize_special, 'aggregator_rounds': aggregator_rounds,
+SUBS = {'thresholds': thresholds, 'extreme_draws': extreme_draws, 'quantize_grid': quantize_grid, 'quantize_special': quantize_special, 'aggregator_rounds': aggregator_rounds,
         'drive': drive}
 TIMEOUTS = {k: 1500 for k in SUBS}
 
@@ -483,6 +530,7 @@ def plan(ctx):
           continue
         qc.append({'fn': fn, 'levels': lv, 'scale': s, 'offset': o, 'K': 8})
   ctx.pmap('quantize_grid', qc, chunk=2)
+  ctx.pmap('thresholds', [{'levels': lv, 'K': 8} for lv in ((2, 3, 5, 9) if th else (2, 3, 5))], chunk=1)
   ctx.pmap('quantize_special', [{'name': n, 'fn': fn, 'levels': lv} for n in SPECIAL
                                 for fn, lv in (('uniform', 2), ('uniform', 5), ('binary', 2), ('terngrad', 2))], chunk=4)
   ac = []
